@@ -171,6 +171,14 @@ fn area_format(cx: &mut Cx, r: &mut Rng) {
                 });
             }
         }
+        // now and then a metric with tens of thousands of tags (a few hundred KB of decoration)
+        if form != Form::Plain && r.chance(1, 150) {
+            let n = *r.pick(&[20_000usize, 65_536, 100_000]);
+            for i in 0..n {
+                decos.push(if i % 3 == 0 { Deco::TagValue(format!("b{}", i)) } else { Deco::Tag(format!("k{}", i), "v".into()) });
+            }
+            cx.rep.obs("metrics_with_tens_of_thousands_of_tags", 1);
+        }
         let sp = CallSpec { kind, val, key: key.clone(), form, decos };
         cx.rep.eval();
         if refuse {
@@ -676,6 +684,55 @@ impl Drop for FdLimit {
     }
 }
 
+
+/// Callers with little stack: an application thread created with a 64 KiB stack (embedded-style workers, signal-handling
+/// threads, coroutine runtimes) records metrics of every kind through a plain client, a buffered sink and a queuing sink.
+/// The library formats on the heap; a stack overflow there takes the whole process down (seen by the parent as a signal).
+fn area_smallstack(cx: &mut Cx, r: &mut Rng) {
+    cx.rep.eval();
+    let variant = r.below(3);
+    cx.rep.distinct(&format!("smallstack|{}", variant));
+    let key: String = "k".repeat(r.range(1, 300) as usize);
+    let tags: Vec<(String, String)> = (0..r.range(0, 12)).map(|i| (format!("t{}", i), "v".repeat(r.range(0, 60) as usize))).collect();
+    let t = std::thread::Builder::new().stack_size(64 * 1024).spawn(move || {
+        let (rx, client) = match variant {
+            0 => (None, StatsdClient::from_sink("small.stack", cadence::NopMetricSink)),
+            1 => {
+                let (rx, s) = cadence::BufferedSpyMetricSink::with_capacity(None, Some(256));
+                (Some(rx), StatsdClient::builder("small.stack", s).with_tag("d", "t").with_container_id("c").build())
+            }
+            _ => (None, StatsdClient::from_sink("small.stack", QueuingMetricSink::from(cadence::NopMetricSink))),
+        };
+        for round in 0..4 {
+            let _ = client.count(&key, round as i64);
+            let _ = client.time(&key, std::time::Duration::from_millis(7));
+            let _ = client.gauge(&key, 1.5f64);
+            let _ = client.meter(&key, 3u64);
+            let _ = client.histogram(&key, vec![1u64, 2, 3]);
+            let _ = client.distribution(&key, 9u64);
+            let _ = client.set(&key, -1i64);
+            let mut b = client.count_with_tags(&key, 1i64).with_sampling_rate(0.5).with_timestamp(7).with_container_id("x");
+            for (k, v) in &tags {
+                b = b.with_tag(k, v);
+            }
+            b.send();
+            let _ = client.time_with_tags(&key, std::time::Duration::new(u64::MAX, 0)).try_send();
+            let _ = client.flush();
+        }
+        drop(client);
+        drop(rx);
+    });
+    match t {
+        Ok(h) => {
+            if h.join().is_err() {
+                cx.rep.violation(Violation { property: "C20".into(), rule: "no-panic".into(), class: "panic".into(), detail: "a metric call made on a thread with a 64 KiB stack panicked".into(), replay_args: cx.args.to_vec_with(&[]), trace: Json::Null });
+            }
+        }
+        Err(_) => cx.rep.inconclusive("could not create a thread with a 64 KiB stack"),
+    }
+    cx.rep.obs("threads_with_a_64_KiB_stack_that_recorded_metrics", 1);
+}
+
 fn area_misc(cx: &mut Cx, r: &mut Rng) {
     cx.rep.eval();
     cx.rep.distinct(&format!("misc|{}", r.below(50)));
@@ -779,6 +836,7 @@ fn main() {
             "queue" => area_queue(&mut cx, &mut r),
             "misc" => area_misc(&mut cx, &mut r),
             "tls" => area_tls(&mut cx, &mut r),
+            "smallstack" => area_smallstack(&mut cx, &mut r),
             a => {
                 eprintln!("unknown area {}", a);
                 std::process::exit(2);
